@@ -25,7 +25,11 @@ pub struct Case {
     pub tags: Vec<String>,
 }
 
-pub trait Suite {
+pub trait Suite: Sync {
+    /// how many cases may run at the same time (cases that mostly wait for real time)
+    fn parallelism(&self, _ctx: &Ctx) -> usize {
+        1
+    }
     /// generate the case inputs of this run (corpus first)
     fn generate(&self, ctx: &Ctx) -> Vec<Case>;
     /// run the real code on one case input
@@ -88,10 +92,11 @@ fn main() {
         for t in &c.tags {
             *hist.entry(t.clone()).or_insert(0) += 1;
         }
-        let obs = match std::panic::catch_unwind(std::panic::AssertUnwindSafe(|| suite.run(&ctx, &c.input))) {
-            Ok(o) => o,
+    }
+    let run_one = |c: &Case| -> (sx::Sx, bool) {
+        match std::panic::catch_unwind(std::panic::AssertUnwindSafe(|| suite.run(&ctx, &c.input))) {
+            Ok(o) => (o, false),
             Err(e) => {
-                panics += 1;
                 let msg = if let Some(s) = e.downcast_ref::<String>() {
                     s.clone()
                 } else if let Some(s) = e.downcast_ref::<&str>() {
@@ -99,9 +104,37 @@ fn main() {
                 } else {
                     "?".into()
                 };
-                sx::tagged("panic", vec![sx::xs(&msg)])
+                (sx::tagged("panic", vec![sx::xs(&msg)]), true)
             }
-        };
+        }
+    };
+    let par = suite.parallelism(&ctx).max(1);
+    let mut results: Vec<Option<(sx::Sx, bool)>> = (0..cases.len()).map(|_| None).collect();
+    if par == 1 {
+        for (i, c) in cases.iter().enumerate() {
+            results[i] = Some(run_one(c));
+        }
+    } else {
+        let next = std::sync::atomic::AtomicUsize::new(0);
+        let slots = std::sync::Mutex::new(&mut results);
+        std::thread::scope(|sc| {
+            for _ in 0..par {
+                sc.spawn(|| loop {
+                    let i = next.fetch_add(1, std::sync::atomic::Ordering::SeqCst);
+                    if i >= cases.len() {
+                        break;
+                    }
+                    let r = run_one(&cases[i]);
+                    slots.lock().unwrap()[i] = Some(r);
+                });
+            }
+        });
+    }
+    for (c, r) in cases.iter().zip(results.into_iter()) {
+        let (obs, p) = r.unwrap();
+        if p {
+            panics += 1;
+        }
         writeln!(cases_f, "{}", c.input.render()).unwrap();
         writeln!(impl_f, "{}", obs.render()).unwrap();
     }
